@@ -36,6 +36,11 @@ class C16Gen:
         fmt = cfg.get("out_fmt", cfg["fmt"])
         opts = cfg.get("opts") or {}
         via = "method" if cfg.get("via_method") else None
+        for kind in cfg.get("renames", ()):
+            # the netlist is edited between reading and writing: whatever a reader recorded about an element's
+            # spelling in the file (a .cname, an identifier) no longer matches its name
+            ev.append({"op": "rename_nth", "on": self.net, "kind": kind, "k": rng.randint(0, 10 ** 6),
+                       "v": "renamed_%d" % rng.randint(0, 10 ** 6)})
         if cfg.get("unnamed_netlist") and fmt != "edf":
             ev.append({"op": "del_name", "on": self.net})   # only the EDIF writer needs (and defaults) a netlist name
         if cfg.get("write_error_at"):
@@ -92,6 +97,7 @@ class C16(Prop):
             names = corpus.names(fmt, big)
             cfg["example"] = r.choice(names)
         cfg["chunk_law"] = r.choice(["whole", "32768", "1..64", "1..7"])
+        cfg["renames"] = r.choice([[], [], ["instance"], ["instance", "cable"], ["instance", "instance", "port"]])
         # mostly the netlist's own format, sometimes another writer (a parsed EDIF written as Verilog / EBLIF ...)
         cfg["out_fmt"] = fmt if r.random() < 0.7 else r.choice(["edf", "v", "eblif"])
         fmt = cfg["out_fmt"]
